@@ -1115,7 +1115,18 @@ def _unsigned(test):
                             comparators=test.comparators)
             return _n(c), False
         return _n(test), True
+    if isinstance(test, ast.BoolOp):
+        # De Morgan: `a or b` is `not (not a and not b)`; conjunctions are
+        # spelled operand-wise (same operands, same order of evaluation)
+        parts = [_unsigned(v) for v in test.values]
+        if isinstance(test.op, ast.Or):
+            return _and_text([(u, not p) for u, p in parts]), False
+        return _and_text(parts), True
     return _n(test), True
+
+
+def _and_text(parts):
+    return ' and '.join(('(%s)' if p else 'not (%s)') % u for u, p in parts)
 
 
 def _ifs_in_order(fn):
@@ -1286,6 +1297,19 @@ def _orient_ifs(fn, rf, log, q):
                                    'guarded block' % (q, t))
                         changed = True
                         break
+                    if has_else and jump and not st.orelse and \
+                            not blk[i + 1:] and \
+                            _enclosing_jump(fn, blk) is ast.Continue:
+                        # `if not c: body` closing a loop body  ->
+                        # `if c: continue else: body`
+                        body = st.body
+                        st.test = negate(st.test)
+                        st.body = [ast.copy_location(ast.Continue(), st)]
+                        st.orelse = body
+                        log.append('%s: nested `%s` restored to '
+                                   'continue/else' % (q, t))
+                        changed = True
+                        break
                     if has_else and not st.orelse and _jump(st.body) and \
                             blk[i + 1:]:
                         # `if not c: jump` + rest  <-  `if c: rest else: jump`
@@ -1384,6 +1408,82 @@ def _free_index_name(fn, loop, candidates):
     return None
 
 
+def _row_base(seq):
+    """The array whose first axis `seq` runs over, for the two NumPy forms
+    that keep the first axis: `X[:, c]` (full slice first) and
+    `.astype(t)`; None when `seq` is not of that form.  len(seq) equals
+    X.shape[0] (trusted NumPy fact; on anything else both spellings fail)."""
+    e = seq
+    changed = False
+    while True:
+        if isinstance(e, ast.Call) and isinstance(e.func, ast.Attribute) and \
+                e.func.attr == 'astype' and len(e.args) == 1 and \
+                not e.keywords and isinstance(e.args[0],
+                                              (ast.Name, ast.Attribute,
+                                               ast.Constant)):
+            e = e.func.value
+            changed = True
+            continue
+        if isinstance(e, ast.Subscript) and isinstance(e.slice, ast.Tuple) \
+                and len(e.slice.elts) == 2 and _full_slice(e.slice.elts[0]) \
+                and (isinstance(e.slice.elts[1], (ast.Constant, ast.Slice))
+                     or (isinstance(e.slice.elts[1], ast.UnaryOp) and
+                         isinstance(e.slice.elts[1].operand, ast.Constant))):
+            e = e.value
+            changed = True
+            continue
+        break
+    return e if changed and _pure_lookup(e) else None
+
+
+def _full_slice(x):
+    return isinstance(x, ast.Slice) and x.lower is None and x.upper is None \
+        and x.step is None
+
+
+def _dead_outside(fn, loop, name):
+    """`name` is not read outside `loop` except where another loop or a
+    comprehension binds it first (so dropping the binding made by `loop`
+    cannot turn a read of a left-over value into something else)."""
+    inside = {id(y) for y in ast.walk(loop)}
+    comps = (ast.ListComp, ast.SetComp, ast.GeneratorExp, ast.DictComp)
+    binders = [l for l in _own_nodes(fn)
+               if (isinstance(l, ast.For) and l is not loop and
+                   name in _names(l.target)) or
+               (isinstance(l, comps) and any(name in _names(g_.target)
+                                             for g_ in l.generators))]
+    for x in _own_nodes(fn):
+        if isinstance(x, ast.Name) and x.id == name and id(x) not in inside:
+            host = [l for l in binders if any(y is x for y in ast.walk(l))]
+            if not host or any(any(y is loop for y in ast.walk(l))
+                               for l in host):
+                return False
+    return True
+
+
+def _dead_outside_names(fn, loop, names):
+    """The loop-target names of `loop` carry no value out of it: every
+    other occurrence lies inside a for-loop that binds the name itself and
+    neither contains `loop` nor is contained in it."""
+    inside = {id(x) for x in ast.walk(loop)}
+    for nm in names:
+        binders = [l for l in _own_nodes(fn) if isinstance(l, ast.For)
+                   and l is not loop and id(l) not in inside
+                   and nm in _names(l.target)]
+        for x in _own_nodes(fn):
+            if not (isinstance(x, ast.Name) and x.id == nm) or \
+                    id(x) in inside:
+                continue
+            host = [l for l in binders if any(y is x for y in ast.walk(l))
+                    and not any(y is x for y in ast.walk(l.iter))]
+            if not host or any(any(y is loop for y in ast.walk(l))
+                               for l in host):
+                return False
+    return True
+
+
+
+
 def _loops_to_reference(fn, rf, log, q):
     ref_loops = rf.get('loops', [])
     ref_iters = {}
@@ -1430,7 +1530,8 @@ def _loops_to_reference(fn, rf, log, q):
         zc = it
         zidx = None
         if isinstance(it, ast.Call) and _n(it.func) == 'enumerate' and \
-                len(it.args) == 1 and isinstance(n.target, ast.Tuple) and \
+                len(it.args) == 1 and not it.keywords and \
+                isinstance(n.target, ast.Tuple) and \
                 len(n.target.elts) == 2 and isinstance(
                     n.target.elts[0], ast.Name):
             zc = it.args[0]
@@ -1469,12 +1570,75 @@ def _loops_to_reference(fn, rf, log, q):
                     log.append('%s: loop over %s restored to `for %s in %s`'
                                % (q, its, iname, hdr))
                     continue
-        if isinstance(it, ast.Call) and _n(it.func) == 'enumerate' and \
-                len(it.args) == 1 and isinstance(n.target, ast.Tuple) and \
-                len(n.target.elts) == 2 and all(
-                    isinstance(e, ast.Name) for e in n.target.elts):
+        # rows of the leading columns unpacked: `for a, b in S[:, :2]` ->
+        # `for i in range(S.shape[0])` with a = S[i, 0], b = S[i, 1]
+        if isinstance(n.target, ast.Tuple) and len(n.target.elts) >= 2 and \
+                all(isinstance(e, ast.Name) for e in n.target.elts) and \
+                len({e.id for e in n.target.elts}) == len(n.target.elts) \
+                and isinstance(it, ast.Subscript) and \
+                _pure_lookup(it.value) and \
+                isinstance(it.slice, ast.Tuple) and \
+                len(it.slice.elts) == 2 and _full_slice(it.slice.elts[0]) \
+                and isinstance(it.slice.elts[1], ast.Slice) and \
+                it.slice.elts[1].lower is None and \
+                it.slice.elts[1].step is None and isinstance(
+                    it.slice.elts[1].upper, ast.Constant) and \
+                it.slice.elts[1].upper.value == len(n.target.elts) and \
+                not n.orelse:
+            s = _n(it.value)
+            cands = [(h_, ref_iters.get(h_)) for h_ in (
+                'range(%s.shape[0])' % s, 'range(len(%s))' % s)]
+            cands = [(h, t) for h, t in cands if t and have[h] < len(t)]
+            elts = [e.id for e in n.target.elts]
+            body_m = ast.Module(body=n.body, type_ignores=[])
+            if cands and not (set(elts) | _names(it.value)) & _names(
+                    body_m, (ast.Store, ast.Del)) and all(
+                        _dead_outside(fn, n, e) for e in elts):
+                header, tgs = cands[0]
+                iname = _free_index_name(fn, n, tgs)
+                if iname is not None:
+                    sub = {e: ast.Subscript(
+                        value=copy.deepcopy(it.value), slice=ast.Tuple(
+                            elts=[ast.Name(id=iname, ctx=ast.Load()),
+                                  ast.Constant(value=k_)], ctx=ast.Load()),
+                        ctx=ast.Load()) for k_, e in enumerate(elts)}
+                    n.body = [_Subst(sub).visit(s_) for s_ in n.body]
+                    n.target = ast.copy_location(ast.Name(
+                        id=iname, ctx=ast.Store()), n.target)
+                    n.iter = ast.copy_location(ast.parse(
+                        header, mode='eval').body, it)
+                    have[header] += 1
+                    log.append('%s: row-unpacking loop over %s restored to '
+                               '`for %s in %s`' % (q, its, iname, header))
+            continue
+        start = None
+        counter = None
+        if isinstance(it, ast.Call) and _n(it.func) == 'enumerate':
+            # enumerate(S) / enumerate(S, k) / enumerate(S, start=k) with an
+            # integer constant k; any other spelling is left alone
+            if not (isinstance(n.target, ast.Tuple) and
+                    len(n.target.elts) == 2 and all(
+                        isinstance(e, ast.Name) for e in n.target.elts)):
+                continue
+            if len(it.args) == 2 and not it.keywords:
+                start = it.args[1]
+            elif len(it.args) == 1 and len(it.keywords) == 1 and \
+                    it.keywords[0].arg == 'start':
+                start = it.keywords[0].value
+            elif len(it.args) != 1 or it.keywords:
+                continue
+            if start is not None:
+                if not (isinstance(start, ast.Constant) and
+                        type(start.value) is int):
+                    continue
+                if start.value == 0:
+                    start = None
             seq = it.args[0]
             idxname, elt = n.target.elts[0].id, n.target.elts[1].id
+            if start is not None:
+                # the counter is index + k: the index gets a recorded name of
+                # its own, the counter is spelled `index + k`
+                counter, idxname = idxname, None
         elif isinstance(it, ast.Call) and isinstance(it.func, ast.Attribute) \
                 and it.func.attr == 'items' and not it.args and isinstance(
                     n.target, ast.Tuple) and len(n.target.elts) == 2 and \
@@ -1502,20 +1666,45 @@ def _loops_to_reference(fn, rf, log, q):
             cands = [(h_, ref_iters.get(h_)) for h_ in (
                 'range(len(%s))' % s, 'range(%s.shape[0])' % s)]
         cands = [(h, t) for h, t in cands if t and have[h] < len(t)]
+        if not cands and not keyed and _row_base(seq) is not None:
+            # a column / converted copy has as many rows as its array
+            b_ = _n(_row_base(seq))
+            cands = [(h_, ref_iters.get(h_)) for h_ in (
+                'range(%s.shape[0])' % b_, 'range(len(%s))' % b_)]
+            cands = [(h, t) for h, t in cands if t and have[h] < len(t)]
+            if cands and (not _dead_outside(fn, n, elt) or _names(seq) &
+                          _names(ast.Module(body=n.body, type_ignores=[]),
+                                 (ast.Store, ast.Del))):
+                cands = []
         if not cands:
             continue
         header, tgs = cands[0]
         if elt in _names(ast.Module(body=n.body, type_ignores=[]),
                          ast.Store):
             continue
+        if counter is not None:
+            # side conditions of the shifted counter: never re-bound in the
+            # body, and neither it nor the element is read outside the loop
+            # (after the rewrite they are no longer bound there)
+            bstores = _names(ast.Module(body=n.body, type_ignores=[]),
+                             ast.Store)
+            if counter in bstores or n.orelse or (_names(seq) & bstores) \
+                    or not _pure_lookup(seq) \
+                    or not _dead_outside_names(fn, n, (counter, elt)):
+                continue
         if idxname is None:
             idxname = _free_index_name(fn, n, tgs)
             if idxname is None:
                 continue
         sub = ast.Subscript(value=copy.deepcopy(seq), slice=ast.Name(
             id=idxname, ctx=ast.Load()), ctx=ast.Load())
-        n.body = [_Subst({elt: sub}).visit(s_) for s_ in n.body]
-        n.orelse = [_Subst({elt: sub}).visit(s_) for s_ in n.orelse]
+        subm = {elt: sub}
+        if counter is not None:
+            subm[counter] = ast.BinOp(
+                left=ast.Name(id=idxname, ctx=ast.Load()), op=ast.Add(),
+                right=ast.Constant(value=start.value))
+        n.body = [_Subst(subm).visit(s_) for s_ in n.body]
+        n.orelse = [_Subst(subm).visit(s_) for s_ in n.orelse]
         n.target = ast.copy_location(ast.Name(id=idxname, ctx=ast.Store()),
                                      n.target)
         n.iter = ast.copy_location(ast.parse(header, mode='eval').body, it)
@@ -1578,18 +1767,32 @@ def _literal_items(it):
     return None
 
 
-def _guard_continues(body):
+def _negate_exact(test):
+    """`not test` without touching an ordering comparison (`not a > b` is
+    not `a <= b` for NaN): strips a `not`, flips ==/!=, is/is not, in/not
+    in, otherwise wraps."""
+    if isinstance(test, ast.UnaryOp) and isinstance(test.op, ast.Not):
+        return test.operand
+    if isinstance(test, ast.Compare) and len(test.ops) == 1 and \
+            type(test.ops[0]) in (ast.Eq, ast.NotEq, ast.Is, ast.IsNot,
+                                  ast.In, ast.NotIn):
+        return negate(test)
+    return ast.copy_location(ast.UnaryOp(op=ast.Not(), operand=test), test)
+
+
+def _guard_continues(body, neg=None):
     """Rewrite top-level `if T: continue` guards of a loop body into nested
     ifs; None if another continue / break remains."""
+    neg = neg or negate
     out = []
     for k, st in enumerate(body):
         if isinstance(st, ast.If) and not st.orelse and len(st.body) == 1 \
                 and isinstance(st.body[0], ast.Continue):
-            rest = _guard_continues(body[k + 1:])
+            rest = _guard_continues(body[k + 1:], neg)
             if rest is None:
                 return None
             if rest:
-                new = ast.If(test=negate(st.test), body=rest, orelse=[])
+                new = ast.If(test=neg(st.test), body=rest, orelse=[])
                 out.append(ast.copy_location(new, st))
             return out
         if any(isinstance(x, (ast.Break, ast.Continue))
@@ -1597,6 +1800,32 @@ def _guard_continues(body):
             return None
         out.append(st)
     return out
+
+
+def _fold_foreign_continues(fn, rf, log, q):
+    """`for ..: if T: continue; REST`  ->  `for ..: if not T: REST` in a
+    function whose recorded form has no if-statement ending in a jump at
+    all: a guard-`continue` the alignment of _orient_ifs could not pair (its
+    test is spelled differently) is still foreign to the recorded shape.
+    Exact: REST is the tail of the loop body, the loop has no other
+    continue / break at that level (checked by _guard_continues)."""
+    if any(jump for _t, _e, jump in rf.get('tests', [])):
+        return
+    for n in list(_own_nodes(fn)):
+        if not isinstance(n, (ast.For, ast.While)):
+            continue
+        if not any(isinstance(st, ast.If) and not st.orelse and
+                   len(st.body) == 1 and isinstance(st.body[0], ast.Continue)
+                   for st in n.body):
+            continue
+        new = _guard_continues(n.body, _negate_exact)
+        if new:
+            n.body = new
+            log.append('%s: guard-continue in `for %s` folded into a nested '
+                       'if (the recorded form has no early exits)'
+                       % (q, _n(n.target) if isinstance(n, ast.For)
+                          else _n(n.test)))
+    ast.fix_missing_locations(fn)
 
 
 def _inline_literal_tuples(fn, rf, log, q):
@@ -1628,6 +1857,22 @@ def _inline_literal_tuples(fn, rf, log, q):
                 elif isinstance(n, ast.Lambda):
                     bound |= {a.arg for a in n.args.args}
             if ops & bound:
+                continue
+            # a recorded local defined by the same elements (as a list or
+            # tuple display) is this local under another name: leave it to
+            # _tuple_locals_to_lists / the pairing step
+            elts_txt = [_n(e) for e in h[2].value.elts]
+            twin = False
+            for nm_, ds_ in rf.get('defs', {}).items():
+                for d_ in ds_:
+                    try:
+                        dn_ = ast.parse(d_, mode='eval').body
+                    except SyntaxError:
+                        continue
+                    if isinstance(dn_, (ast.List, ast.Tuple)) and \
+                            [_n(e) for e in dn_.elts] == elts_txt:
+                        twin = True
+            if twin:
                 continue
             if _inline_temp(fn, c_):
                 log.append('%s: literal tuple %s inlined' % (q, c_))
@@ -1845,10 +2090,22 @@ def _inline_temp(fn, name, allow_calls=False, ref_calls=None,
     roots = {_n(x) for x in ast.walk(val) if isinstance(
         x, (ast.Attribute, ast.Subscript))}
     last = max(x.lineno for x in loads)
+    load_ids = {id(x) for x in loads}
     for s_ in later:
         if s_.lineno > last:
             break
-        for x in ast.walk(s_):
+        scan = s_
+        if isinstance(s_, (ast.If, ast.For)):
+            # the header of an if / for is evaluated once, before the body:
+            # when it holds the last uses, stores in the body come later
+            hdr = s_.test if isinstance(s_, ast.If) else s_.iter
+            in_hdr = {id(x) for x in ast.walk(hdr)} & load_ids
+            in_stmt = {id(x) for x in ast.walk(s_)} & load_ids
+            after = [x for t_ in later if t_.lineno > s_.lineno
+                     for x in ast.walk(t_) if id(x) in load_ids]
+            if in_stmt and in_stmt == in_hdr and not after:
+                scan = hdr
+        for x in ast.walk(scan):
             if isinstance(x, ast.Name) and isinstance(x.ctx, ast.Store) and \
                     x.id in operands:
                 return False
@@ -1976,6 +2233,7 @@ def _dictcomps_to_loops(fn, rf, log, q):
                 seq = idx = key = None
                 if isinstance(g.iter, ast.Call) and _n(g.iter.func) == \
                         'enumerate' and len(g.iter.args) == 1 and \
+                        not g.iter.keywords and \
                         isinstance(g.target, ast.Tuple) and \
                         len(g.target.elts) == 2 and all(
                             isinstance(e, ast.Name) for e in g.target.elts):
@@ -2036,6 +2294,17 @@ def _loops_to_comprehensions(fn, rf, log, q):
                       if d.startswith('[') and ' for ' in d}
     count_defs = {nm for nm, ds in rdefs.items()
                   if any(d.startswith(('sum(1 for ', 'sum((1 for ')) for d in ds)}
+    # comprehensions the reference spells inside a call (`max([... for ...])`)
+    for ctext in rf.get('calls', {}):
+        if ' for ' not in ctext:
+            continue
+        try:
+            cnode = ast.parse(ctext, mode='eval').body
+        except SyntaxError:
+            continue
+        for x in ast.walk(cnode):
+            if isinstance(x, ast.ListComp):
+                all_comp_texts.add(_n(x))
     if not all_comp_texts and not count_defs:
         return
     for blk in _blocks(fn):
@@ -2080,6 +2349,32 @@ def _loops_to_comprehensions(fn, rf, log, q):
                         len(inner.body) == 1:
                     cond = inner.test
                     inner = inner.body[0]
+                elif isinstance(inner, ast.If) and len(inner.body) == 1 and \
+                        len(inner.orelse) == 1:
+                    # if c: X.append(a) else: X.append(b)
+                    #   -> X.append(a if c else b)   (X a plain local that
+                    #   the test and the values do not re-bind)
+                    ba, bb = inner.body[0], inner.orelse[0]
+
+                    def _app(s_):
+                        return isinstance(s_, ast.Expr) and isinstance(
+                            s_.value, ast.Call) and _n(s_.value.func) == \
+                            x + '.append' and len(s_.value.args) == 1 and \
+                            not s_.value.keywords and not isinstance(
+                                s_.value.args[0], ast.Starred)
+                    if _app(ba) and _app(bb) and not any(
+                            isinstance(y, ast.NamedExpr)
+                            for y in ast.walk(inner)):
+                        merged = ast.Expr(value=ast.Call(
+                            func=copy.deepcopy(ba.value.func),
+                            args=[ast.IfExp(test=inner.test,
+                                            body=ba.value.args[0],
+                                            orelse=bb.value.args[0])],
+                            keywords=[]))
+                        for y in ast.walk(merged):
+                            if not hasattr(y, 'lineno'):
+                                ast.copy_location(y, inner)
+                        inner = merged
                 if isinstance(inner, ast.Expr) and isinstance(
                         inner.value, ast.Call) and _n(inner.value.func) == \
                         x + '.append' and len(inner.value.args) == 1:
@@ -2130,6 +2425,65 @@ def _inline_hoisted(fn, rf, log, q):
         if not done:
             return
     ast.fix_missing_locations(fn)
+
+
+def _nonneg_index(fn, sub, nexpr):
+    """Side condition of the table rewrite: the index of `X[k]` can never be
+    negative where the table has elements (a negative index would wrap
+    silently, whereas an index >= len(X) -- and any index into the empty
+    table -- fails loudly in the current form).  Accepted: a non-negative int
+    constant; the text `N - 1` (negative only when the table is empty); a
+    name bound by an enclosing `for k in range(..)` / comprehension generator
+    over a one-argument range and not re-bound in its body."""
+    k = sub.slice
+    if isinstance(k, ast.Constant) and isinstance(k.value, int) and \
+            not isinstance(k.value, bool) and k.value >= 0:
+        return True
+    if _n(k) == '%s - 1' % _n(nexpr) and isinstance(
+            nexpr, (ast.Name, ast.Attribute, ast.Subscript, ast.Call)):
+        return True
+    if not isinstance(k, ast.Name):
+        return False
+    par = {}
+    for p_ in ast.walk(fn):
+        for ch in ast.iter_child_nodes(p_):
+            par[id(ch)] = p_
+
+    def one_arg_range(it):
+        return isinstance(it, ast.Call) and _n(it.func) == 'range' and \
+            len(it.args) == 1 and not it.keywords
+    x = sub
+    while id(x) in par:
+        prev, x = x, par[id(x)]
+        if isinstance(x, ast.For) and isinstance(x.target, ast.Name) and \
+                x.target.id == k.id and any(prev is s_ for s_ in x.body):
+            stores = [y for s_ in x.body for y in ast.walk(s_)
+                      if isinstance(y, ast.Name) and y.id == k.id
+                      and isinstance(y.ctx, (ast.Store, ast.Del))]
+            return one_arg_range(x.iter) and not stores
+        if isinstance(x, (ast.ListComp, ast.SetComp, ast.GeneratorExp,
+                          ast.DictComp)):
+            for j_, g_ in enumerate(x.generators):
+                if k.id in _names(g_.target):
+                    if isinstance(prev, ast.comprehension) and \
+                            x.generators.index(prev) <= j_:
+                        return False    # read before this generator binds
+                    return isinstance(g_.target, ast.Name) and \
+                        one_arg_range(g_.iter)
+        if isinstance(x, (ast.FunctionDef, ast.AsyncFunctionDef, ast.Lambda)):
+            return False
+        if isinstance(x, ast.stmt) and any(
+                isinstance(y, ast.Name) and y.id == k.id and isinstance(
+                    y.ctx, (ast.Store, ast.Del)) for y in ast.walk(x)) and \
+                not isinstance(x, ast.For):
+            return False
+    return False
+
+
+_PURE_ELT = (ast.Name, ast.Attribute, ast.Subscript, ast.Constant, ast.Compare,
+             ast.BinOp, ast.UnaryOp, ast.BoolOp, ast.Slice, ast.Tuple,
+             ast.expr_context, ast.operator, ast.unaryop, ast.cmpop,
+             ast.boolop)
 
 
 def _truth_context_names(fn):
@@ -2536,8 +2890,19 @@ def _sink_selected_callee(fn, rf, log, q):
 
 
 def _inline_indexed_comprehensions(fn, rf, log, q):
-    """X = [E(v) for v in range(N)] used only as X[i]  ->  E(i)."""
+    """Look-up table of a pure expression the reference does not know:
+        X = [E(v) for v in range(N)]
+    used only as `X[k]` (k provably not negative) or as the iterable of a
+    comprehension generator `for t in X`:
+        X[k]                 ->  E(k)
+        [F(t) for t in X]    ->  [F(E(v)) for v in range(N)]
+    Side conditions: X is bound once and never stored through; E consists of
+    look-ups, constants, arithmetic and comparisons only (no call: evaluating
+    it again, or not at all, is unobservable); every use follows the
+    definition in its block; no operand of E / N is re-bound and no look-up
+    of E / N is stored to between the definition and the last use."""
     ref_locs = set(rf.get('locals', []))
+    comps = (ast.ListComp, ast.SetComp, ast.GeneratorExp, ast.DictComp)
     for _ in range(6):
         params, locs = local_order(fn)
         done = False
@@ -2554,16 +2919,91 @@ def _inline_indexed_comprehensions(fn, rf, log, q):
                         v.generators[0].target, ast.Name) and isinstance(
                             v.generators[0].iter, ast.Call) and
                     _n(v.generators[0].iter.func) == 'range' and
-                    len(v.generators[0].iter.args) == 1):
+                    len(v.generators[0].iter.args) == 1 and
+                    not v.generators[0].iter.keywords and
+                    not v.generators[0].is_async):
                 continue
             var = v.generators[0].target.id
+            rng = v.generators[0].iter
+            if not all(isinstance(y, _PURE_ELT) for y in ast.walk(v.elt)) or \
+                    not all(isinstance(y, _PURE_ELT) for y in
+                            ast.walk(rng.args[0])):
+                continue
             uses = [n for n in _own_nodes(fn) if isinstance(n, ast.Name)
                     and n.id == x and isinstance(n.ctx, ast.Load)]
             subs = [n for n in _own_nodes(fn) if isinstance(n, ast.Subscript)
                     and isinstance(n.value, ast.Name) and n.value.id == x
                     and isinstance(n.ctx, ast.Load)]
-            if not uses or len(uses) != len(subs):
+            gens = [(c_, g_) for c_ in _own_nodes(fn) if isinstance(c_, comps)
+                    for g_ in c_.generators
+                    if isinstance(g_.iter, ast.Name) and g_.iter.id == x]
+            if not uses or len(uses) != len(subs) + len(gens):
                 continue
+            if not all(_nonneg_index(fn, s_, rng.args[0]) for s_ in subs):
+                continue
+            # generator uses: single plain target, bound nowhere else in the
+            # comprehension; the table's own variable is free to be used
+            okg = True
+            for c_, g_ in gens:
+                if not isinstance(g_.target, ast.Name) or g_.is_async or \
+                        sum(1 for y in ast.walk(c_) if isinstance(
+                            y, ast.Name) and y.id == g_.target.id and
+                            isinstance(y.ctx, ast.Store)) != 1 or \
+                        (var != g_.target.id and var in _names(c_)) or \
+                        any(y is not g_.iter and isinstance(y, ast.Name)
+                            and y.id == x for y in ast.walk(c_)) or \
+                        g_.target.id in _names(v.elt) | _names(rng):
+                    okg = False
+            if not okg:
+                continue
+            # uses follow the definition, in its block
+            later = blk[i + 1:]
+            inside = set()
+            for s_ in later:
+                inside |= {id(y) for y in ast.walk(s_)}
+            if any(id(y) not in inside for y in uses):
+                continue
+            # operands stay what they were when the table was built
+            operands = (_names(v.elt) | _names(rng.args[0])) - {var}
+            if var in _names(rng.args[0]):
+                continue
+            roots = {_n(y) for e_ in (v.elt, rng.args[0])
+                     for y in ast.walk(e_)
+                     if isinstance(y, (ast.Attribute, ast.Subscript))}
+            last = max(getattr(y, 'lineno', 0) for y in uses)
+            clean = True
+            for s_ in later:
+                if s_.lineno > last:
+                    break
+                for y in ast.walk(s_):
+                    if isinstance(y, ast.Name) and isinstance(
+                            y.ctx, (ast.Store, ast.Del)) and \
+                            y.id in operands:
+                        clean = False
+                    if isinstance(y, (ast.Attribute, ast.Subscript)) and \
+                            isinstance(getattr(y, 'ctx', None),
+                                       (ast.Store, ast.Del)) and \
+                            _n(y) in roots:
+                        clean = False
+            if not clean:
+                continue
+
+            for c_, g_ in gens:
+                t_ = g_.target.id
+                e = _Subst({var: ast.Name(id=var, ctx=ast.Load())}).visit(
+                    copy.deepcopy(v.elt))
+                sb = _Subst({t_: e})
+                k_ = c_.generators.index(g_)
+                for f_ in ('elt', 'key', 'value'):
+                    if hasattr(c_, f_):
+                        setattr(c_, f_, sb.visit(getattr(c_, f_)))
+                g_.ifs = [sb.visit(y) for y in g_.ifs]
+                for g2 in c_.generators[k_ + 1:]:
+                    g2.iter = sb.visit(g2.iter)
+                    g2.ifs = [sb.visit(y) for y in g2.ifs]
+                g_.target = ast.copy_location(
+                    ast.Name(id=var, ctx=ast.Store()), g_.target)
+                g_.iter = ast.copy_location(copy.deepcopy(rng), g_.iter)
 
             class RC(ast.NodeTransformer):
                 def visit_Subscript(self, node):
@@ -2579,7 +3019,9 @@ def _inline_indexed_comprehensions(fn, rf, log, q):
                 if j != i:
                     blk[j] = RC().visit(blk[j])
             del blk[i]
-            log.append('%s: indexed comprehension %s inlined' % (q, x))
+            log.append('%s: indexed comprehension %s inlined%s' % (
+                q, x, ' (%d generator use(s) re-expressed over %s)' % (
+                    len(gens), _n(rng)) if gens else ''))
             done = True
             break
         if not done:
@@ -3098,6 +3540,58 @@ def _rehoist(fn, rf, log, q):
     ast.fix_missing_locations(fn)
 
 
+def _tuple_locals_to_lists(fn, rf, log, q):
+    """`K = (a, b, c)` -> `K = [a, b, c]` where the reference defines a local
+    by exactly that list display and K is only ever *read as a sequence*
+    (iterated, enumerated, len(K), K[i] in load context, `x in K`): no
+    operation that distinguishes a tuple from a list of the same items is
+    applied to it, and it never leaves the function."""
+    rtexts = {d for ds in rf.get('defs', {}).values() for d in ds
+              if d.startswith('[')}
+    if not rtexts:
+        return
+    params, locs = local_order(fn)
+    par = {}
+    for x in ast.walk(fn):
+        for c_ in ast.iter_child_nodes(x):
+            par[id(c_)] = x
+    for nm in locs:
+        h = _single_assign(fn, nm)
+        if h is None or not isinstance(h[2].value, ast.Tuple):
+            continue
+        as_list = ast.List(elts=h[2].value.elts, ctx=ast.Load())
+        if _n(as_list) not in rtexts:
+            continue
+        ok = True
+        for x in ast.walk(fn):      # uses in nested functions count, too
+            if not (isinstance(x, ast.Name) and x.id == nm and
+                    isinstance(x.ctx, ast.Load)):
+                continue
+            p_ = par.get(id(x))
+            if isinstance(p_, (ast.For, ast.comprehension)) and p_.iter is x:
+                continue
+            if isinstance(p_, ast.Subscript) and p_.value is x and \
+                    isinstance(p_.ctx, ast.Load) and \
+                    not isinstance(p_.slice, ast.Slice):
+                continue
+            if isinstance(p_, ast.Call) and isinstance(p_.func, ast.Name) \
+                    and p_.func.id in ('len', 'enumerate') and p_.args and \
+                    p_.args[0] is x and (p_.func.id == 'len' or isinstance(
+                        par.get(id(p_)), (ast.For, ast.comprehension))):
+                continue
+            if isinstance(p_, ast.Compare) and len(p_.ops) == 1 and \
+                    isinstance(p_.ops[0], (ast.In, ast.NotIn)) and \
+                    p_.comparators[0] is x:
+                continue
+            ok = False
+            break
+        if ok:
+            h[2].value = ast.copy_location(as_list, h[2].value)
+            log.append('%s: tuple display of sequence-only local %s spelled '
+                       'as the recorded list' % (q, nm))
+    ast.fix_missing_locations(fn)
+
+
 def _split_fused_updates(fn, rf, log, q):
     """`x = A op e`  ->  `x = A; x op= e` (the second marked as a former
     plain assignment, exactly what the universal step makes of
@@ -3347,6 +3841,262 @@ def _temps_and_names(fn, rf, log, q):
 
 
 # ---------------------------------------------------------------------------
+# parameter copies, search loops, cached last elements
+
+def _rebind_params(fn, rf, log, q):
+    """`X = E(p)` at function level, after which the parameter p is dead, is
+    the recorded re-binding `p = E(p)`: rename X -> p."""
+    ref_locs = set(rf.get('locals', []))
+    rdefs = rf.get('defs', {})
+    for _ in range(6):
+        params, locs = local_order(fn)
+        done = False
+        for x in locs:
+            if x in ref_locs:
+                continue
+            h = _single_assign(fn, x)
+            if h is None or h[0] is not fn.body:
+                continue
+            blk, i, st = h
+            for p_ in params:
+                if p_ in ('self', 'cls') or _n(st.value) not in rdefs.get(
+                        p_, []):
+                    continue
+                # p is read only inside E (also not by a nested function)
+                occ = [n for n in ast.walk(fn) if isinstance(n, ast.Name)
+                       and n.id == p_]
+                inside = {id(n) for n in ast.walk(st.value)}
+                if not occ or any(id(n) not in inside for n in occ):
+                    continue
+                # X lives only after its definition
+                xs = [n for n in ast.walk(fn) if isinstance(n, ast.Name)
+                      and n.id == x and n is not st.targets[0]]
+                later = {id(n) for s_ in blk[i + 1:] for n in ast.walk(s_)}
+                if any(id(n) not in later for n in xs):
+                    continue
+                _rename(fn, {x: p_})
+                log.append('%s: copy %s of parameter %s restored to a '
+                           're-binding of the parameter' % (q, x, p_))
+                done = True
+                break
+            if done:
+                break
+        if not done:
+            return
+
+
+_PURE_TEST_NODES = (ast.BoolOp, ast.boolop, ast.UnaryOp, ast.unaryop,
+                    ast.Compare, ast.cmpop, ast.BinOp, ast.operator, ast.Name,
+                    ast.expr_context, ast.Attribute, ast.Subscript,
+                    ast.Constant)
+
+
+def _search_loops_to_flags(fn, rf, log, q):
+    """for v in S:                       L = [P(w) for w in S]
+           if P(v):                      if not any(L):
+               return E(v)        ->         return D
+       return D                          else:
+                                             K = np.where(L)[0][0]
+                                             return E(S[K])
+    where the reference has the locals L (a list comprehension over S) and
+    K = np.where(L)[0][0], tests `not any(L)` and indexes S by K.  P is a
+    pure test (names, look-ups, comparisons, arithmetic), so evaluating it
+    for every element instead of up to the first hit changes nothing;
+    np.where(L)[0][0] is the position of the first hit and S[K] the element
+    the loop variable held there (S is a positional sequence: the recorded
+    program indexes it)."""
+    defs = rf.get('defs', {})
+    params, locs = local_order(fn)
+    for L, ds in defs.items():
+        if len(ds) != 1 or not ds[0].startswith('['):
+            continue
+        try:
+            comp = ast.parse(ds[0], mode='eval').body
+        except SyntaxError:
+            continue
+        if not (isinstance(comp, ast.ListComp) and len(comp.generators) == 1
+                and not comp.generators[0].ifs and isinstance(
+                    comp.generators[0].target, ast.Name)):
+            continue
+        s_text = _n(comp.generators[0].iter)
+        ks = [k for k, kd in defs.items()
+              if kd == ['np.where(%s)[0][0]' % L]]
+        if len(ks) != 1:
+            continue
+        K = ks[0]
+        if not any(t == 'not any(%s)' % L and he
+                   for t, he, _j in rf.get('tests', [])):
+            continue
+        idx_text = '%s[%s]' % (s_text, K)
+        if not any(idx_text in c for c in rf.get('calls', {})) and not any(
+                idx_text in d for dd in defs.values() for d in dd):
+            continue
+        used = {n.id for n in ast.walk(fn) if isinstance(n, ast.Name)} | \
+            set(params)
+        if L in used or K in used or 'np' not in used:
+            continue
+        for blk in _blocks(fn):
+            for i, st in enumerate(blk):
+                if not (isinstance(st, ast.For) and not st.orelse and
+                        isinstance(st.target, ast.Name) and
+                        _n(st.iter) == s_text and _pure_lookup(st.iter)):
+                    continue
+                if len(st.body) != 1 or not isinstance(st.body[0], ast.If) \
+                        or st.body[0].orelse:
+                    continue
+                iff = st.body[0]
+                if len(iff.body) != 1 or not isinstance(
+                        iff.body[0], ast.Return) or iff.body[0].value is None:
+                    continue
+                if i + 1 >= len(blk) or not isinstance(blk[i + 1],
+                                                       ast.Return):
+                    continue
+                v = st.target.id
+                P, E, dret = iff.test, iff.body[0].value, blk[i + 1]
+                if not all(isinstance(n, _PURE_TEST_NODES)
+                           for n in ast.walk(P)):
+                    continue
+                if any(isinstance(n, (ast.Lambda, ast.ListComp, ast.SetComp,
+                                      ast.DictComp, ast.GeneratorExp,
+                                      ast.NamedExpr)) for n in ast.walk(E)):
+                    continue
+                inloop = {id(n) for n in ast.walk(st)}
+                if any(isinstance(n, ast.Name) and n.id == v and
+                       id(n) not in inloop for n in ast.walk(fn)):
+                    continue
+                w = comp.generators[0].target.id
+                if w in used and w != v:
+                    w = v
+                elt = _Subst({v: ast.Name(id=w, ctx=ast.Load())}).visit(
+                    copy.deepcopy(P))
+                lc = ast.ListComp(elt=elt, generators=[ast.comprehension(
+                    target=ast.Name(id=w, ctx=ast.Store()),
+                    iter=copy.deepcopy(st.iter), ifs=[], is_async=0)])
+                a1 = ast.Assign(targets=[ast.Name(id=L, ctx=ast.Store())],
+                                value=lc)
+                sk = ast.Subscript(value=copy.deepcopy(st.iter),
+                                   slice=ast.Name(id=K, ctx=ast.Load()),
+                                   ctx=ast.Load())
+                e2 = _Subst({v: sk}).visit(copy.deepcopy(E))
+                a2 = ast.Assign(
+                    targets=[ast.Name(id=K, ctx=ast.Store())],
+                    value=ast.parse('np.where(%s)[0][0]' % L,
+                                    mode='eval').body)
+                test = ast.parse('not any(%s)' % L, mode='eval').body
+                if2 = ast.If(test=test, body=[dret],
+                             orelse=[a2, ast.Return(value=e2)])
+                for new in (a1, if2):
+                    for x in ast.walk(new):
+                        if not hasattr(x, 'lineno') or x is new:
+                            ast.copy_location(x, st)
+                ast.copy_location(a2, iff.body[0])
+                ast.copy_location(if2.orelse[1], iff.body[0])
+                blk[i:i + 2] = [a1, if2]
+                ast.fix_missing_locations(fn)
+                log.append('%s: search loop over %s with early return '
+                           'restored to flags %s / first index %s'
+                           % (q, s_text, L, K))
+                return
+
+
+def _cached_last_elements(fn, rf, log, q):
+    """A local X the reference does not know that always equals L[-1] of a
+    local list L -- bound by `X = L[-1]` once and otherwise only by
+    `X = E; L.append(X)` (adjacent), while L is changed by nothing but these
+    appends -- is replaced by L[-1]; the pairs become `L.append(E)`."""
+    ref_locs = set(rf.get('locals', []))
+    params, locs = local_order(fn)
+    for x in locs:
+        if x in ref_locs:
+            continue
+        stores = [(blk, i, st) for blk in _blocks(fn)
+                  for i, st in enumerate(blk)
+                  if isinstance(st, ast.Assign) and len(st.targets) == 1 and
+                  isinstance(st.targets[0], ast.Name) and
+                  st.targets[0].id == x]
+        binds = [n for n in ast.walk(fn) if isinstance(n, ast.Name) and
+                 n.id == x and isinstance(n.ctx, (ast.Store, ast.Del))]
+        if len(stores) != len(binds) or len(stores) < 2:
+            continue
+        inits = [s_ for s_ in stores if isinstance(s_[2].value, ast.Subscript)
+                 and isinstance(s_[2].value.value, ast.Name) and
+                 _n(s_[2].value.slice) == '-1']
+        if len(inits) != 1:
+            continue
+        iblk, ii, ist = inits[0]
+        L = ist.value.value.id
+        if L in params or L == x:
+            continue
+        hl = _single_assign(fn, L)
+        if hl is None or hl[0] is not iblk or hl[1] >= ii or not isinstance(
+                hl[2].value, (ast.List, ast.ListComp)):
+            continue
+        pairs = []
+        ok = True
+        for blk, i, st in stores:
+            if st is ist:
+                continue
+            nxt = blk[i + 1] if i + 1 < len(blk) else None
+            if not (isinstance(nxt, ast.Expr) and isinstance(
+                    nxt.value, ast.Call) and _n(nxt.value.func) == L +
+                    '.append' and len(nxt.value.args) == 1 and
+                    not nxt.value.keywords and isinstance(
+                        nxt.value.args[0], ast.Name) and
+                    nxt.value.args[0].id == x):
+                ok = False
+                break
+            pairs.append((blk, st, nxt))
+        if not ok:
+            continue
+        # X lives only after `X = L[-1]`
+        later = {id(n) for s_ in iblk[ii + 1:] for n in ast.walk(s_)}
+        if any(isinstance(n, ast.Name) and n.id == x and n is not
+               ist.targets[0] and id(n) not in later for n in ast.walk(fn)):
+            continue
+        # L is only read, or appended to by the pairs
+        par = {}
+        for p_ in ast.walk(fn):
+            for c_ in ast.iter_child_nodes(p_):
+                par[id(c_)] = p_
+        pair_calls = {id(p_[2].value) for p_ in pairs}
+        for n in ast.walk(fn):
+            if not (isinstance(n, ast.Name) and n.id == L) or \
+                    n is hl[2].targets[0]:
+                continue
+            pn = par.get(id(n))
+            if isinstance(pn, ast.Subscript) and pn.value is n and \
+                    isinstance(pn.ctx, ast.Load):
+                continue
+            if isinstance(pn, ast.Attribute) and pn.attr == 'append' and \
+                    id(par.get(id(pn))) in pair_calls:
+                continue
+            if isinstance(pn, ast.Call) and any(a_ is n for a_ in pn.args) \
+                    and (_n(pn.func) in ('len', 'list', 'tuple') or
+                         _n(pn.func).startswith('np.')):
+                continue
+            if isinstance(pn, ast.Return) or (isinstance(pn, ast.Tuple) and
+                                              isinstance(par.get(id(pn)),
+                                                         ast.Return)):
+                continue
+            ok = False
+            break
+        if not ok:
+            continue
+        for blk, st, nxt in pairs:
+            nxt.value.args[0] = st.value
+            del blk[[k for k, s_ in enumerate(blk) if s_ is st][0]]
+        last = ast.parse('%s[-1]' % L, mode='eval').body
+        ii = [k for k, s_ in enumerate(iblk) if s_ is ist][0]
+        for j in range(ii + 1, len(iblk)):
+            iblk[j] = _Subst({x: last}).visit(iblk[j])
+        del iblk[ii]
+        ast.fix_missing_locations(fn)
+        log.append('%s: cached last element %s of %s replaced by %s[-1]'
+                   % (q, x, L, L))
+        return _cached_last_elements(fn, rf, log, q)
+
+
+# ---------------------------------------------------------------------------
 
 def _renumber(fn):
     """Make statement line numbers strictly increasing in source order after
@@ -3438,6 +4188,9 @@ def canonicalise(tree, modname, text=None):
         _inline_literal_iterables(fn, rf, log, q)
         _pipeline_to_locals(fn, rf, log, q)
         _flags_from_tests(fn, rf, log, q)
+        _rebind_params(fn, rf, log, q)
+        _search_loops_to_flags(fn, rf, log, q)
+        _cached_last_elements(fn, rf, log, q)
         _restore_bool_returns(fn, rf, log, q)
         _dictcomps_to_loops(fn, rf, log, q)
         _loops_to_comprehensions(fn, rf, log, q)
@@ -3454,7 +4207,10 @@ def canonicalise(tree, modname, text=None):
         _explode_dict_displays(fn, rf, log, q)
         _dissolve_built_locals(fn, rf, log, q)
         _inline_indexed_comprehensions(fn, rf, log, q)
+        _tuple_locals_to_lists(fn, rf, log, q)
         _temps_and_names(fn, rf, log, q)
+        # loop headers over locals that only now carry their recorded names
+        _loops_to_reference(fn, rf, log, q)
         _rehoist(fn, rf, log, q)
         _index_to_unpack(fn, rf, log, q)
         _split_fused_updates(fn, rf, log, q)
@@ -3462,6 +4218,7 @@ def canonicalise(tree, modname, text=None):
         _restore_bool_returns(fn, rf, log, q)
         _conjunction_ifs(fn, rf, log, q)
         _orient_ifs(fn, rf, log, q)
+        _fold_foreign_continues(fn, rf, log, q)
         if len(log) > n0 or any(l.startswith(('inlined helper',
                                               'inlined nested helper'))
                                 for l in log):
